@@ -47,7 +47,8 @@ def st_line(draw):
     if k == "own":
         return PH
     if k == "ownvar":
-        return PH + draw(st.sampled_from([b" ", b"\t", b"  \t ", b"# c", b" # c libsnoopy.so", b"#", b"\t#x"]))
+        return PH + draw(st.sampled_from([b" ", b"\t", b"  \t ", b"# c", b" # c libsnoopy.so", b"#", b"\t#x",
+                                          b" # c\r", b"\t# a\rb /usr/lib/libevil.so", b" # x\r /usr/lib/e.so", b" \r"]))
     if k == "foreign":
         return b"/" + draw(st.one_of(gen.ident_bytes(1, 8), st.just(b"opt/caf\xc3\xa9"), st.just(b"usr/\xffx"))) + b"/lib" + draw(gen.ident_bytes(1, 8)) + b".so" + draw(st.sampled_from([b"", b"", b" ", b" # c"]))
     if k == "comment":
